@@ -572,6 +572,24 @@ class Inliner:
                 return False
         return True
 
+    @staticmethod
+    def _switch_returns(sw, conv):
+        """returns of a trailing switch become `<conv(r)>; break;` (valid because nothing follows the switch)"""
+        def rec(n, in_loop):
+            if not isinstance(n, dict):
+                return n
+            k = n.get("k")
+            if k == "ReturnStmt":
+                if in_loop:
+                    raise CannotInline("return inside a loop inside a switch")
+                return _block(list(conv(n)) + [{"k": "BreakStmt", "line": n.get("line")}], n)
+            out = {kk: v for kk, v in n.items() if kk != "i"}
+            if "i" in n:
+                out["i"] = [rec(c, in_loop or k in _LOOPS or (k == "SwitchStmt" and n is not sw)) if c is not None else None
+                            for c in n["i"]]
+            return out
+        return rec(sw, False)
+
     def _inline(self, h, call, mode, target, stack, depth):
         mapping, pro = self._bind(h, call)
         body = substitute(cir.body(h), mapping)
@@ -602,6 +620,8 @@ class Inliner:
                     a["i"] = [clone(lhs), c[0]]
                     a["line"] = r.get("line")
                     return [a]
+            if stmts and stmts[-1].get("k") == "SwitchStmt" and contains(stmts[-1], ("ReturnStmt",)):
+                stmts = stmts[:-1] + [self._switch_returns(stmts[-1], conv)]
             new = eliminate_returns(stmts, conv)
         self.inlined.append((stack[0], h.get("n"), call.get("line")))
         new = self._list(new, stack + (h.get("n"),), depth - 1)
@@ -1336,7 +1356,7 @@ class ViewUnit:
     Rules written against "the function that does X" then see the same thing whether X's parts live in private helpers or
     not."""
 
-    def __init__(self, unit, keep=(), nested=False, propagate=False, procedures_only=True):
+    def __init__(self, unit, keep=(), nested=False, propagate=False, procedures_only=True, max_callers=1):
         self._u = unit
         self.tu = unit.tu
         self.ir = unit.ir
@@ -1360,7 +1380,7 @@ class ViewUnit:
                     addr_taken.add(x["ref"].get("n"))
         self.private = {n for n, fn in unit.funcs.items()
                         if fn.get("storageClass") == "static" and fn.get("file") in (None, unit.tu) and n not in keep
-                        and n not in addr_taken and len(callers.get(n, ())) == 1
+                        and n not in addr_taken and callers.get(n) and (max_callers is None or len(callers[n]) <= max_callers)
                         and (not procedures_only or (fn.get("t") or "").startswith("void ("))
                         and (cir.body(fn) or {}).get("sfile") in (None, unit.tu)}
         self.exclude = tuple(sorted(n for n in unit.funcs if n not in self.private))
